@@ -81,6 +81,28 @@ CLAIMED = {
              "codec result and the reference outcome must agree at every step, class namespaces are snapshotted around codec creation (drift).",
         note="Entry-point agreement for arbitrary nested positions (List[D], Dict[str,D], Optional, Outer.f) is additionally covered by the holder types of C01-C03.",
         tech="TLA+ state machine + exhaustive behaviours replayed into the code", ref="6 C15"),
+    "C04": dict(
+        text="A format is modelled as a lossless channel on its representable subset (Representable, NullsRestorable in MC_C04.tla); the expected parsed document is Pack(T, CxF(format), v) "
+             "(natives for msgpack bytes / TOML dates, TOML null omission) and TLC proves NothingElseDiffers against the basic form; every state (5 formats x shapes x values, through the mixin "
+             "methods and through Encoder/Decoder objects) is replayed: parse_F(encode_F(v)) == expected document and decode_F(encode_F(v)) == v.",
+        note="Third-party encoders trusted on their representable subset; map keys restricted to text key types; document equality is Python equality (PyYAML sorts keys).",
+        tech="TLA+ reference serializer with format contexts as oracle, TLC enumeration replayed into the code", ref="6 C04"),
+    "C06": dict(
+        text="Draft 2020-12 validation for mashumaro's keyword subset is transcribed into TLA+ (Valid, JEq, ref resolution); real schemas (2 dialects x inline/all_refs) and real serializer output "
+             "for every type of the grammar + random deeper schemas are recorded and TLC judges every (schema, instance) pair, Satisfiable, RequiredExact and DistinctDefs; the jsonschema "
+             "library is a cross-check: a violation is reported only when both validators reject.",
+        note="Unknown keywords / patterns make an event unmodelled (counted). Disagreements between the two validators are recorded as a self-test count, never as verdicts.",
+        tech="TLA+ JSON Schema validator as judge in TLC trace validation of recorded schema/instance events", ref="6 C06"),
+    "C11": dict(
+        text="UnpackUnion / UnpackLiteral / PackMembers in TLA+ (reading fixed in DESIGN.md A.3); TLC proves NullOnlyNull, ExactUnchanged, WellTyped, LiteralListed and enumerates every ordered union of 2..3 "
+             "(thorough: 4) distinct members of 9 member types + 6 Literal types, bare and as a dataclass field, x 30 foreign inputs and the members' samples; every state is replayed.",
+        note="TypeVar constraints are not in the bridge yet.", tech="exhaustive TLC enumeration of unions x inputs replayed into the code", ref="6 C11"),
+    "C20": dict(
+        text="The builder context is a state machine in the trace spec (ctx[b] = definitions so far): TLC checks WellFormed (metaschema subset, cross-checked with check_schema), RefsClosed "
+             "(every $ref resolves in the document, starts with the configured prefix and names a collected definition), DefsMonotone over sequences of JSONSchemaBuilder.build calls, and the "
+             "JSONSchema.from_dict(...).to_dict() round trip; totality is exercised over every type of the grammar, random dataclasses with defaults of every type under 5-9 Configs, and self-references.",
+        note="Types the builder itself declares unsupported (NotImplementedError: re.Pattern) are outside the schema-supported grammar and counted as unmodelled.",
+        tech="TLC trace validation of recorded build events against a TLA+ builder-context state machine", ref="6 C20"),
 }
 REASON_PENDING = "check not built yet in this round (construction order DESIGN.md 11); not claimed"
 
